@@ -44,6 +44,24 @@ def gen(tier, rng):
                             vec = [0] * (256 * n)
                             vec[j * 256 + i] = -v if (i + j) % 2 else v
                             out.append(Case(fn, lv, [vec, b], ["in_domain", "single"]))
+    # saturated inputs: EVERY coefficient at or beyond the bound (a counter of violations, a vectorised OR, an early exit could all
+    # behave differently from a single violation), both signs and mixed, also through the vector wrappers
+    for b in bounds():
+        if not 1 <= b <= QM8:
+            continue
+        for fill in ("+b", "-b", "mixed-b", "rmax", "mixed-rmax", "b+1"):
+            def val(i, fill=fill, b=b):
+                v = {"+b": b, "-b": -b, "mixed-b": b if i % 2 else -b, "rmax": RMAX, "mixed-rmax": RMAX if i % 3 else -RMAX, "b+1": min(b + 1, RMAX)}[fill]
+                return v
+            out.append(Case("chknorm", "-", [[val(i) for i in range(256)], b], ["in_domain", "saturated"]))
+        out.append(Case("chknorm", "-", [[(b if i != 77 else b - 1) for i in range(256)], b], ["in_domain", "saturated"]))
+        for lv in LEVELS:
+            p = Par(lv)
+            if b in (p.g1 - p.beta, p.g2 - p.beta, p.g2, 1, QM8):
+                out.append(Case("l_chknorm", lv, [[b if i % 2 else -b for i in range(256 * p.L)], b], ["in_domain", "saturated"]))
+                out.append(Case("k_chknorm", lv, [[-b] * (256 * p.K), b], ["in_domain", "saturated"]))
+                one = [0] * (256 * p.K); one[256 * (p.K - 1):] = [b] * 256
+                out.append(Case("k_chknorm", lv, [one, b], ["in_domain", "saturated"]))
     for _ in range(60 if tier == "quick" else 3000):
         b = rng.choice(bounds())
         a = [rng.randint(-RMAX, RMAX) if rng.random() < 0.1 else rng.randint(-max(1, abs(b)), max(1, abs(b))) for _ in range(256)]
@@ -59,7 +77,7 @@ def gen(tier, rng):
 
 
 def nontrivial(c, out):
-    return "single" in c.tags
+    return "single" in c.tags or "saturated" in c.tags
 
 
 def oracle(c, outs):
@@ -69,3 +87,47 @@ def oracle(c, outs):
     if outs[0] != exp:
         return "%s(bound %d) = %d, expected %d (max |coeff| = %d)" % (c.fn, b, outs[0], exp, max(abs(x) for x in a))
     return None
+
+
+def extra(rep, cov, tier, rng):
+    """The verifier's acceptance test is the norm check with ITS OWN set's bound: for every set, a signature from a modified signer
+    whose verification equation holds and whose largest |z| is EXACTLY gamma1-beta (either sign) must be rejected by verify."""
+    from concurrent.futures import ProcessPoolExecutor
+    jobs = [(cp, rng.getrandbits(64), 40 if tier == "quick" else 400) for cp in SETS6]
+    with ProcessPoolExecutor(max_workers=6) as ex:
+        found = [x for part in ex.map(_bound_cases, jobs) for x in part]
+    from dlib import crate, fmt_arg
+    n = 0
+    for cp, sig, m, pk, sgn in found:
+        for dev in (True, False):
+            r = crate([("verify", cp, [sig, m, pk])], dev=dev)[0]
+            n += 1
+            if r is None or r[0] != 0:
+                rep.violation("verify/%s accepts a signature whose largest |z| is exactly gamma1-beta (%s side): the verifier's norm bound is not its own set's"
+                              % (cp, "positive" if sgn > 0 else "negative"),
+                              {"cases": [{"fn": "verify", "copy": cp, "args": [fmt_arg(sig), fmt_arg(m), fmt_arg(pk)]}]}, True)
+    cov["verifier_bound_cases"] = n
+    cov["evaluations"] = cov.get("evaluations", 0) + n
+    cov["distinct_nontrivial"] = cov.get("distinct_nontrivial", 0) + len(found)
+
+
+SETS6 = ["lvl2", "lvl3", "lvl5", "ml_dsa_44", "ml_dsa_65", "ml_dsa_87"]
+
+
+def _bound_cases(job):
+    import random
+    import pyref
+    from props.c03 import sign_skip_znorm
+    cp, seed, budget = job
+    rng = random.Random(seed)
+    p = Par(cp)
+    pk, sk = pyref.keygen(p, bytes(rng.randrange(256) for _ in range(32)))
+    out = []
+    for sgn in (1, -1):
+        for _ in range(budget):
+            mm = bytes(rng.randrange(256) for _ in range(12))
+            zb = sign_skip_znorm(p, sk, mm, tries=60, exact=sgn)
+            if zb is not None:
+                out.append((cp, zb, mm, pk, sgn))
+                break
+    return out
